@@ -210,7 +210,9 @@ def run(tier, seed, jobs):
           "concurrent": {"A": [{"s": "A", "op": "create", "m": "n1"}], "B": [{"s": "B", "op": "create", "m": "n2"}]}, "epilogue_vv": {"a": "n1", "b": "n2"}}
     cs = {"name": "create|select-new-folder", "cfg_ref": ["vf.props.c02", "cfg", []], "prelude": [], "loopopts": {"preempt_timers": False},
           "concurrent": {"A": [{"s": "A", "op": "create", "m": "n1"}], "B": [{"s": "B", "op": "create", "m": "n2/k"}]}, "epilogue_vv": {"a": "n1", "b": "n2"}}
-    for sc in [cc, cs] + c13.s_scenarios():
+    cr = dict(cc, name="create|create;restart;recreate", epilogue_recreate={"names": ["n1", "n2"], "how": "restart"})
+    del cr["epilogue_vv"]
+    for sc in [cc, cs, cr] + c13.s_scenarios():
         if not (sc["name"].startswith("deliver-into-dst") or sc["name"].startswith("create|")):
             continue
         r = sched.explore(sc, 1 if tier == "quick" else 2, jobs, seed, max_exec=20000 if tier == "quick" else 80000)
